@@ -594,3 +594,35 @@ Proof.
     - unfold ChanMapSpec.valid_map. unfold used_channels in Hu. apply Nat.leb_le. apply N.leb_le in Hu. clear - Hu. lia. }
   clear Er. subst r. exact (valid_request_connects c s hdr0 body ch Hc Ha Ht E).
 Qed.
+
+(* ========================================================================================== two updates that look alike *)
+(* Two connection updates with the same interval / latency / timeout and DIFFERENT transmit windows (offset 3 then 1):
+   connection_changed reports the same three values twice.  The monitor judges the second instant against the second
+   update's window (applied_update consumes what was applied); a trace in which the second instant's window sits at the
+   FIRST update's offset is rejected.  (Regression of the false alarm at the thorough tier, docs/C22.md.) *)
+Definition upd_pdu (wsz woff iv lat tmo inst : N) : pdu :=
+  (3, [0; wsz; woff mod 256; woff / 256; iv mod 256; iv / 256; lat mod 256; lat / 256; tmo mod 256; tmo / 256; inst mod 256; inst / 256]).
+Definition session22_like_updates : list lop :=
+  [Run; connect_with 3 11 24 0 72; Ev 0 []; Ev 0 [upd_pdu 2 3 80 0 200 3]; Ev 0 []; Ev 0 []; Ev 0 [upd_pdu 2 1 80 0 200 8];
+   Ev 0 []; Ev 0 []; Ev 0 []; Ev 0 []; Ev 0 []].
+Definition shift_ce (d : N) (r : lout) : lout :=
+  match r with
+  | OItems it => OItems (map (fun i => match i with ICe ch s e iv => ICe ch (s + d) (e + d) iv | _ => i end) it)
+  | _ => r
+  end.
+Fixpoint tamper (n : nat) (d : N) (tr : list (lop * lout)) : list (lop * lout) :=
+  match tr, n with
+  | [], _ => []
+  | (o, r) :: t, O => (o, shift_ce d r) :: t
+  | x :: t, S n' => x :: tamper n' d t
+  end.
+Lemma like_updates_both_applied :
+  exists it1 it2 d,
+    nth_error (trace_of cfg_base session22_like_updates) 4 = Some (Ev 0 [], OItems it1) /\ In (ICb (EvChanged d)) it1 /\
+    nth_error (trace_of cfg_base session22_like_updates) 9 = Some (Ev 0 [], OItems it2) /\ In (ICb (EvChanged d)) it2.
+Proof. vm_compute. do 3 eexists. split; [reflexivity|]. split; [simpl; tauto|]. split; [reflexivity|]. simpl; tauto. Qed.
+Lemma like_updates_accepted : mrun22 cfg_base (minit22 cfg_base) (trace_of cfg_base session22_like_updates) = Ok.
+Proof. vm_compute. reflexivity. Qed.
+Lemma like_updates_wrong_window_rejected :
+  mrun22 cfg_base (minit22 cfg_base) (tamper 9 2500 (trace_of cfg_base session22_like_updates)) = Bad 2.
+Proof. vm_compute. reflexivity. Qed.
